@@ -157,6 +157,7 @@ inductive Ev
   | dDie
   | dObs (n : Nat) (f : File) (present : Bool)   -- stat, or unlink failing with ENOENT
   | dOpenTodo (n : Nat)                -- todo_do: open_read(todo/n) succeeded
+  | dAbortTodo                         -- todo_do gives up (`goto fail`): no system call, todo/n stays
   | dUnlink (n : Nat) (f : File)       -- unlink succeeded
   | dCreat (n : Nat) (f : File)        -- open_excl (info, local, remote) / open_append (bounce) succeeded
   | dReq (todoReq : Bool) (n : Nat)    -- "todo/n" or "foop/n" written to qmail-clean
@@ -234,6 +235,10 @@ def accept (s : St) : Ev → Option St
     if s.up = true ∧ s.mode.cleaning = false ∧ (s.fl n).todo = true then
       some { s with mode := .inTodo n false, k := { cur := n } }
     else none
+  | .dAbortTodo =>
+    match s.mode with
+    | .inTodo _ _ => some { s with mode := .none }
+    | _ => none
   | .dUnlink n f =>
     if s.up = true ∧ (s.fl n).get f = true then
       match s.mode, f with
@@ -292,7 +297,7 @@ def accept (s : St) : Ev → Option St
     | .todoC1 _ | .todoC2 _ | .foopC1 _ | .foopC2 _ => if plus = false then some { s with mode := .none } else none
     | _ => none
   | .cUnlinkPid n =>
-    if s.up = true ∧ s.pidf n = true ∧ s.stale n then some { s with pidf := upd s.pidf n false } else none
+    if s.pidf n = true ∧ s.stale n then some { s with pidf := upd s.pidf n false } else none
   | .crash =>
     some { s with inj := fun i => crashPc (s.inj i), up := false, mode := .none, k := {}, known := fun _ => false }
 
